@@ -1357,4 +1357,67 @@ theorem find_fromFiles (fs : Dir) (c : Cache) (b e : Nat) (res : Bytes) :
   obtain ⟨g, hg, hh⟩ := searchLoop_fromFiles _ b _ _ c (fun d off => readByEnd_fromFiles d off b e res) x hx
   exact ⟨g, List.mem_of_mem_drop hg, hh⟩
 
+/-! ### restarts of the writer (`Writer.reopen`) -/
+
+theorem reopen_files_length (w : Writer) (now ms mf : Nat) (h : 0 < mf) :
+    (w.reopen now ms mf).files.length ≤ mf ∧ (w.reopen now ms mf).maxFiles = mf := by
+  refine ⟨?_, rfl⟩
+  simp only [Writer.reopen, Writer.roll, List.length_append, List.length_drop, List.length_singleton]
+  omega
+
+/-- a history of writes and restarts in which every restart configures a non-zero file limit -/
+def LimitsPos : List Ev → Prop
+  | [] => True
+  | .write _ _ :: r => LimitsPos r
+  | .reopen _ _ mf :: r => 0 < mf ∧ LimitsPos r
+
+/-- **file-count bound with restarts**: whatever the directory held before a restart and whatever the
+    old limit was, after every event the number of files is at most the limit of the writer in force -/
+theorem fileCount_runEvents (w : Writer) (evs : List Ev) (h0 : 0 < w.maxFiles) (h : w.files.length ≤ w.maxFiles)
+    (hl : LimitsPos evs) :
+    (runEvents w evs).files.length ≤ (runEvents w evs).maxFiles ∧ 0 < (runEvents w evs).maxFiles := by
+  induction evs generalizing w with
+  | nil => exact ⟨h, h0⟩
+  | cons ev r ih =>
+    cases ev with
+    | write ts items =>
+      have := fileCount_runWrites w [(ts, items)] h0 h
+      simp only [runWrites, List.foldl_cons, List.foldl_nil] at this
+      exact ih (w.write ts items) (this.2 ▸ h0) (this.2 ▸ this.1) hl
+    | reopen now ms mf =>
+      have := reopen_files_length w now ms mf hl.1
+      exact ih (w.reopen now ms mf) (this.2 ▸ hl.1) (this.2 ▸ this.1) hl.2
+
+theorem inv_reopen {w : Writer} {L : Nat} (now ms mf : Nat) (h : Inv w L) (hL : L ≤ now / 1000) :
+    Inv (w.reopen now ms mf) (now / 1000) := by
+  have h' : Inv ({ files := w.files, latestOpSec := 0, maxSize := ms, maxFiles := mf, createdSec := now / 1000 } : Writer) L :=
+    ⟨h.ord, h.ok, h.ents, h.sorted, h.bound⟩
+  exact inv_mono (inv_setLatest _ (inv_roll now h')) hL
+
+theorem linesValid_reopen (w : Writer) (now ms mf : Nat) (h : LinesValid w) : LinesValid (w.reopen now ms mf) :=
+  linesValid_roll ({ files := w.files, latestOpSec := 0, maxSize := ms, maxFiles := mf, createdSec := now / 1000 } : Writer) now h
+
+/-- an accepted history with restarts: `Write` arguments valid, every restart happens at a clock reading
+    not before the last second written (the clock does not run backwards across a restart) -/
+def EvsOK : Writer → List Ev → Prop
+  | _, [] => True
+  | w, .write ts items :: r => ts < 2 ^ 64 ∧ (∀ it ∈ items, Valid it) ∧ EvsOK (w.write ts items) r
+  | w, .reopen now ms mf :: r => w.latestOpSec ≤ now / 1000 ∧ now / 1000 < 2 ^ 64 ∧ EvsOK (w.reopen now ms mf) r
+
+theorem runEvents_inv (w : Writer) (evs : List Ev) (hok : EvsOK w evs) (hinv : Inv w w.latestOpSec)
+    (hl : LinesValid w) (hw : w.latestOpSec < 2 ^ 64) :
+    Inv (runEvents w evs) (runEvents w evs).latestOpSec ∧ LinesValid (runEvents w evs) ∧
+      (runEvents w evs).latestOpSec < 2 ^ 64 := by
+  induction evs generalizing w with
+  | nil => exact ⟨hinv, hl, hw⟩
+  | cons ev r ih =>
+    cases ev with
+    | write ts items =>
+      obtain ⟨hts, hit, hrest⟩ := hok
+      exact ih (w.write ts items) hrest (inv_write w ts items hinv) (linesValid_write w ts items hts hit hl)
+        (write_latest_lt w ts items _ hw (by omega))
+    | reopen now ms mf =>
+      obtain ⟨hge, hlt, hrest⟩ := hok
+      exact ih (w.reopen now ms mf) hrest (inv_reopen now ms mf hinv hge) (linesValid_reopen w now ms mf hl) hlt
+
 end Sentinel.MetricLog
